@@ -85,6 +85,8 @@ def interpret_resolver(p):
                     notes.append(("violation", e, "the anchor-dropping slice [1:] is applied to the parts of a path that is not proven absolute "
                                   "(a relative argument loses its first component / is not joined with the working directory)"))
                     return PARTS_TAIL
+            if not isinstance(sl, ast.Slice) and v in (PARTS_TAIL, PARTS_ABS, PARTS_ANY):
+                return COMP if v == PARTS_TAIL else TOP   # one component of the anchor-less tail (an index into the full parts may be the anchor)
             return TOP
         if isinstance(e, ast.BinOp) and isinstance(e.op, ast.Div):
             return div(ev(e.left, env), ev(e.right, env))
@@ -235,6 +237,18 @@ def interpret_resolver(p):
                     e_fail = e1 if neg else e2
                     if e_fail is not None and e_fail.get(n) == BASE:
                         env["#g:" + n] = BOOL
+            elif isinstance(s, ast.AugAssign) and isinstance(s.target, ast.Name) and isinstance(s.op, (ast.Add, ast.Sub)):
+                env = dict(env)
+                env[s.target.id] = TOP     # counters
+                env.pop("#g:" + s.target.id, None)
+            elif isinstance(s, ast.While) and not s.orelse:
+                head = env
+                for _ in range(12):
+                    new = join_env(head, run(s.body, dict(head), sink))
+                    if new == head:
+                        break
+                    head = new
+                env = head
             elif isinstance(s, ast.For) and isinstance(s.target, ast.Name):
                 it = ev(s.iter, env)
                 elem = COMP if it in (PARTS_TAIL, PARTS_ABS, PARTS_ANY) else TOP
@@ -403,6 +417,18 @@ class PathProv:
         if kind == "param":
             params = [a.arg for a in fn.args.args]
             idx = params.index(name) if name in params else None
+            host = p.enclosing_function(fn)
+            if host is not None and idx is not None:
+                # a nested function called by name in its host: the label of what the host passes
+                labels = set()
+                for c in ast.walk(host):
+                    if isinstance(c, ast.Call) and isinstance(c.func, ast.Name) and c.func.id == fn.name and p.enclosing_function(c) is not fn:
+                        if idx < len(c.args) and not any(isinstance(a, ast.Starred) for a in c.args[:idx + 1]):
+                            labels.add(self.label(c.args[idx], p.enclosing_function(c) or host, depth))
+                        elif kwarg(c, name) is not None:
+                            labels.add(self.label(kwarg(c, name), p.enclosing_function(c) or host, depth))
+                if labels:
+                    return labels.pop() if len(labels) == 1 else "MIXED:" + ",".join(sorted(labels))
             is_handlerish = (p.enclosing_class(fn) is not None and p.enclosing_class(fn).name == "Server" and fn.name in self.handler_names) \
                 or fn.name == "wrapper" or any(fn is w for h, w in p.workers())
             if is_handlerish and idx == 2:
